@@ -96,7 +96,7 @@ SEEDS = {
  "C09-1": ("C09", "pkg/controller/runtime/internal/qruntime/internal/queue/queue.go", "a Put for an in-flight key stores the value only for the first notification during that hold",
            "at least two Puts with different values for the same key between Get and Release",
            "pkg/controller/runtime/internal/qruntime/internal/queue", "TestSeed1OnHoldCoalescesToMostRecentValue", ["C09"],
-           "coalescing to the most recent *value* is listed as not decided: the loop invariant is about keys; the parked value is written on a path without a call site for an assertion"),
+           "first three evaluations: missed (the loop invariants are about keys, and the parked value is written on a path without a call site for an assertion); with ghost locals and `at backedge` the loop now asserts [parked-value-is-the-most-recent]: after a Put for an in-flight key the parked value is the value of that Put"),
  "C09-2": ("C09", "pkg/controller/runtime/internal/qruntime/internal/queue/queue.go", "Item.Requeue gets a value receiver: the released flag is set on a copy, so Release after Requeue sends a second release",
            "the interleaving: A holds the key, a Put arrives, A requeues, B gets the key, A's deferred Release fires, another Put arrives, C gets the key while B holds it",
            "pkg/controller/runtime/internal/qruntime/internal/queue", "TestSeed2ReleaseAfterRequeueKeepsExclusion", ["C09"],
@@ -212,5 +212,6 @@ with open(os.path.join(ROOT, "RESULTS.md"), "w") as w:
     for r in rows:
         w.write("| %s | %s | `%s`: %s | %s | %s | %s |\n" % (r[0], r[1], r[2], r[3], r[4], ("`" + r[5] + "`") if r[5] else "", r[6]))
     n = sum(1 for r in rows if r[4] != "—")
-    w.write("\n%d of %d caught. The misses are outside the functions under contract; none is a contract that verifies although the behaviour it pins changed.\n" % (n, len(rows)))
+    w.write("\n%d of %d caught.%s\n" % (n, len(rows), "" if n == len(rows) else " The misses are outside the functions under contract; none is a contract that verifies although the behaviour it pins changed."))
+    w.write("Rows whose note starts with 'first evaluation: missed' were missed when first evaluated and are caught by contracts written afterwards; the seeds of rounds 1-2 that were caught from the start were last evaluated before the engine changes of the third session (their check_results.txt are from that evaluation).\n")
 print("wrote", len(rows), "meta.json files and RESULTS.md")
